@@ -24,12 +24,13 @@ def R(mod, name, cfg="rc"):
 
 PROPS = {
     "C15": dict(
-        rules=[R("strings", "rule_unsafe_bounds"), R("strings", "rule_str_option"), R("strings", "rule_slice_tail"), R("strings", "rule_width_units")],
+        rules=[R("strings", "rule_unsafe_bounds"), R("strings", "rule_str_option"), R("strings", "rule_slice_tail"), R("strings", "rule_width_units"), R("strings", "rule_bounds_order")],
         clause="A string value can only be built from bounds validated against its data, so slicing cannot yield malformed "
                "text (R-UNSAFE-BOUNDS); a slice that would cut through a character becomes an error, never an unwrap "
                "(R-STR-OPTION); a constant number of bytes is cut off a string's end only after an ends_with test "
                "(R-SLICE-TAIL); the width and precision of a format spec are compared with grapheme counts, never byte "
-               "lengths (R-WIDTH-UNITS). Not decided: results of split/trim/replace/format, grapheme segmentation.",
+               "lengths (R-WIDTH-UNITS); unwrapped with_bounds ranges are ordered by construction (R-BOUNDS-ORDER). Not decided: "
+               "results of split/trim/replace/format, grapheme segmentation.",
         technique="construction-site census of the get_unchecked-backed type with dominating-validation analysis over MIR; "
                   "unit taint (byte length vs grapheme count) over expression trees",
     ),
@@ -70,11 +71,11 @@ PROPS = {
     ),
     "C14": dict(
         rules=[R("values", "rule_hasheq"), R("values", "rule_immut"), R("values", "rule_map_order"),
-               R("values", "rule_fresh")],
+               R("values", "rule_fresh"), R("narrow", "rule_stale_index"), R("values", "rule_replace_atomic")],
         clause="Hash agrees with Eq for map keys (R-HASHEQ); tuples, strings and ranges have no interior mutability "
                "between handle and storage (R-IMMUT); only order-preserving map operations are used outside map.sort / "
                "random.shuffle, and the replace-at-index idiom is complete and guarded (R-MAP-ORDER); `+` and "
-               "copy/deep_copy build fresh containers (R-FRESH). Not decided: equality and ordering laws over values, "
+               "copy/deep_copy build fresh containers (R-FRESH). a map is never addressed by a position looked up before user code ran (R-STALE-INDEX). Not decided: equality and ordering laws over values, "
                "sort correctness, aliasing histories.",
         technique="cast/callee census of sibling impls (Hash vs Eq); ADT type walk; who-may-call + idiom dominance over MIR",
     ),
@@ -128,11 +129,11 @@ PROPS = {
         technique="type walk over ADT facts + MIR def-use (handle fields, output evidence) + call-graph reachability",
     ),
     "C04": dict(
-        rules=[R("vm", "rule_frames"), R("vm", "rule_catch_restore"), R("iters", "rule_iter_err")],
+        rules=[R("vm", "rule_frames"), R("vm", "rule_catch_restore"), R("iters", "rule_iter_err"), R("values", "rule_replace_atomic")],
         clause="Every nested interpreter entry sets the execution barrier and pops its frame when the nested run fails "
                "(R-FRAMES); resuming at a catch handler restores the sequence/string builder stacks (R-CATCH-RESTORE); "
                "no iterator output that may carry an error is dropped on its way up through adaptors and consumers "
-               "(R-ITER-ERR). Not decided: finally on every path, handler scoping across break/continue/return "
+               "(R-ITER-ERR). the multi-step replace-at-index of a map entry cannot be interrupted by an error exit (R-REPLACE-ATOMIC). Not decided: finally on every path, handler scoping across break/continue/return "
                "(emitted control flow), variable state after a catch.",
         technique="MIR path rules (sibling protocol at nested entries, must-pass-through) + linear-value evidence rule",
     ),
@@ -140,7 +141,8 @@ PROPS = {
         rules=[R("borrow", "rule_borrow"), R("arith", "rule_arith"), R("arith", "rule_rem_zero"), R("arith", "rule_accum"),
                R("arith", "rule_num_wrap"), R("narrow", "rule_narrow"), R("narrow", "rule_vm_regs"),
                R("narrow", "rule_cursor"), R("front", "rule_column_bytes"), R("strings", "rule_slice_tail"),
-               R("narrow", "rule_stale_index"), R("strings", "rule_conv_unwrap")],
+               R("narrow", "rule_stale_index"), R("strings", "rule_conv_unwrap"), R("narrow", "rule_sign_index"),
+               R("strings", "rule_bounds_order")],
         clause="Panic families visible in code shape: a RefCell guard of a shared container held across re-entrant or "
                "aliasing code (R-BORROW); script-supplied i64 values reaching overflow-/zero-/shift-checked arithmetic "
                "with no dominating guard of the needed kind (R-ARITH, R-REM-ZERO); digit accumulators in input-driven "
@@ -151,7 +153,9 @@ PROPS = {
                "before `len - cursor` (R-CURSOR); span columns are not used as byte offsets of str slices (R-COLUMN-BYTES), and a constant number of "
                "bytes is cut off a string's end only after an ends_with test (R-SLICE-TAIL); no panicking `[]` on a shared "
                "container inside a loop that runs user callbacks (R-STALE-INDEX); an unwrapped value-dependent conversion "
-               "(char::from_u32, to_digit, try_from) is dominated by a test that makes it succeed (R-CONV-UNWRAP). Not decided: panic-freedom in general (unwrap/index sites justified by data "
+               "(char::from_u32, to_digit, try_from) is dominated by a test that makes it succeed (R-CONV-UNWRAP); a signed script value is cast to usize only "
+               "when provably non-negative (R-SIGN-INDEX); an unwrapped with_bounds(start..end) has ordered bounds by "
+               "construction (R-BOUNDS-ORDER). Not decided: panic-freedom in general (unwrap/index sites justified by data "
                "invariants are out of scope and counted as undecided where met).",
         technique="guard live-range dataflow over MIR x whole-workspace call graph (CHA + callback-through-bounds "
                   "edges); Assert-terminator census with dominating-guard classification; interval analysis of byte-width "
@@ -199,19 +203,19 @@ PROPS = {
     ),
     "C07": dict(
         rules=[R("vm", "rule_regs"), R("vm", "rule_frames"), R("vm", "rule_catch_restore"), R("vm", "rule_import"),
-               R("vm", "rule_exec_state")],
+               R("vm", "rule_exec_state"), R("vm", "rule_unwind_all")],
         clause="Structural necessary conditions of 'a failed run leaves the runtime clean': host-facing VM entries "
                "truncate the value stack on every exit (R-REGS); nested interpreter entries pop their frame on failure "
                "(R-FRAMES); builder stacks are restored at catch (R-CATCH-RESTORE); a failed import removes its cache "
                "placeholder and restores exports (R-IMPORT); execution_state is never left Active (R-EXEC-STATE). "
-               "Not decided: behavioural equivalence with a fresh instance over arbitrary histories.",
+               "every error returned by the interpreter loop has passed the unwinder (R-UNWIND-ALL). Not decided: behavioural equivalence with a fresh instance over arbitrary histories.",
         technique="MIR path rules (pairing on all exits) over a rustc_private fact dump",
     ),
     "C08": dict(
-        rules=[R("vm", "rule_timeout_poll"), R("vm", "rule_timeout_nocatch")],
+        rules=[R("vm", "rule_timeout_poll"), R("vm", "rule_timeout_nocatch"), R("vm", "rule_unwind_all")],
         clause="The deadline poll dominates every instruction dispatch in the interpreter loop (R-TIMEOUT-POLL) and a "
                "timeout is never offered to a catch handler, including timeouts returned by nested interpreter entries "
-               "(R-TIMEOUT-NOCATCH). Not decided: time bounds/slack, adaptive poll interval, native loops.",
+               "(R-TIMEOUT-NOCATCH). a timeout leaves the interpreter loop through the unwinder like every other error (R-UNWIND-ALL). Not decided: time bounds/slack, adaptive poll interval, native loops.",
         technique="MIR dominance / must-pass-through and constant-argument analysis",
     ),
     "C18": dict(
